@@ -397,14 +397,16 @@ def ct_entry(ctx, v, x, c, U, before):
                 raise Fail("%s verdict %d" % (e, r))
     elif e == "KWPUnwrap":
         kn = 16 + n % 40
-        hdr = expand(c["seed"] + "h", 16)
+        hdr = expand(c["seed"] + "h", 16) if c.get("al", 0) % 3 else None       # header == 0: the all-zero header, compared by another code path
         t = x.out(kn + 16)
-        x.call("beltKWPWrap", t, x.buf(expand(c["seed"] + "kk", kn)), kn, x.buf(hdr), x.buf(key), 32)
+        x.call("beltKWPWrap", t, x.buf(expand(c["seed"] + "kk", kn)), kn, x.buf(hdr) if hdr else None, x.buf(key), 32)
         tok = bytearray(t.read())
         if wrong:
             tok[c["pos"] % len(tok)] ^= 0x40
         T = x.buf(bytes(tok)); U(T)
-        H = x.buf(hdr); U(H)
+        H = None
+        if hdr:
+            H = x.buf(hdr); U(H)
         o = x.out(kn)
         r = x.call("beltKWPUnwrap", o, T, kn + 16, H, K, 32)
         x.mark(o, False)
